@@ -1793,7 +1793,8 @@ def run(ctx):
     ansn = common.driver(ctx.pid, nd)
     badn = [r[:300] for r, x in zip(nd, ansn) if x != "1"]
     ctx.obligation(f"model: per component, reduced Kirchhoff matrix x computed inverse == identity and "
-                   f"newman kernel + normalisation == sum_(t<s) I_i^st / ((N_c-1)/2), exact ({len(nd)} graphs)",
+                   f"newman kernel + normalisation == sum_(t<s) I_i^st / ((N_c-1)/2), exact ({len(nd)} graphs; "
+                   f"cross-check of theorems ratInv_correct, newmanComponent_eq_def)",
                    "correspondence", not badn, "\n".join(badn[:5]))
     # ---------------- correspondence with the Lean model --------------------------------
     ctx.correspond("Lean Net model == Network methods (integer outputs)", run_.reqs, run_.exp)
